@@ -109,6 +109,9 @@ type Result struct {
 	MaxRunResp int
 	MaxRunRespPerPeer int
 	APIHung    []string // API calls that never returned
+	// RerequestWhileActive[i]: a re-sent New request for i (same id, after a requestor pause) was
+	// delivered while the responder still had the earlier response's task active
+	RerequestWhileActive map[int]bool
 }
 
 // Roots resolves a request's root cid.
@@ -149,9 +152,34 @@ func gated(ls ipld.LinkSystem, g *gate) ipld.LinkSystem {
 	return ls
 }
 
+// Stores optionally replaces the stores derived from Case.Split.
+type Stores struct {
+	Req, Resp map[cid.Cid][]byte
+}
+
 // Run executes the case.
-func Run(t *testing.T, c Case) *Result {
-	res := &Result{Labels: map[string]bool{}, KeyStores: map[int]map[cid.Cid][]byte{}}
+func Run(t *testing.T, c Case) *Result { return RunWith(t, c, nil) }
+
+// Key renders what the caller saw for one request, comparably.
+func (o *ReqOutcome) Key() string {
+	var sb strings.Builder
+	for _, v := range o.Visits {
+		sb.WriteString(v.Key())
+		sb.WriteString("\n")
+	}
+	sb.WriteString("--errs--\n")
+	var es []string
+	for _, e := range o.Errs {
+		es = append(es, fmt.Sprintf("%T:%v", e, e))
+	}
+	sort.Strings(es)
+	sb.WriteString(strings.Join(es, "\n"))
+	fmt.Fprintf(&sb, "\n--closed-- %v %v", o.RespClosed, o.ErrClosed)
+	return sb.String()
+}
+
+func RunWith(t *testing.T, c Case, st *Stores) *Result {
+	res := &Result{RerequestWhileActive: map[int]bool{}, Labels: map[string]bool{}, KeyStores: map[int]map[cid.Cid][]byte{}}
 	if !c.Sel.WellFormed() {
 		res.Skip = true
 		return res
@@ -167,6 +195,9 @@ func Run(t *testing.T, c Case) *Result {
 		split = append(split, 2)
 	}
 	reqStore, respStore := b.Stores(split)
+	if st != nil {
+		reqStore, respStore = st.Req, st.Resp
+	}
 	sel := c.Sel.Node()
 	for range c.Reqs {
 		res.Reqs = append(res.Reqs, &ReqOutcome{})
@@ -220,7 +251,17 @@ func Run(t *testing.T, c Case) *Result {
 		byIDm := map[graphsync.RequestID]int{}
 		setID := func(id graphsync.RequestID, i int) { mu.Lock(); byIDm[id] = i; mu.Unlock() }
 		getID := func(id graphsync.RequestID) (int, bool) { mu.Lock(); defer mu.Unlock(); i, ok := byIDm[id]; return i, ok }
+		wireSeen := 0
+		noteWire := func() {
+			mu.Lock()
+			for _, e := range w.Net.SentSince(wireSeen) {
+				wireSeen++
+				res.Events = append(res.Events, Event{K: "wire", Seq: e.Seq, From: string(e.From), Info: sim.DescribeMsg(e.Msg)})
+			}
+			mu.Unlock()
+		}
 		logf := func(k string, r int, info string) {
+			noteWire() // whatever was sent before this event precedes it in the log
 			mu.Lock()
 			res.Events = append(res.Events, Event{K: k, R: r, Info: info})
 			mu.Unlock()
@@ -286,16 +327,36 @@ func Run(t *testing.T, c Case) *Result {
 				ha.PauseResponse()
 			}
 		})
-		results := make([]*sim.ReqResult, len(c.Reqs))
-		wireSeen := 0
-		noteWire := func() {
-			for ; wireSeen < len(w.Net.Sent); wireSeen++ {
-				e := w.Net.Sent[wireSeen]
-				mu.Lock()
-				res.Events = append(res.Events, Event{K: "wire", Seq: e.Seq, From: string(e.From), Info: sim.DescribeMsg(e.Msg)})
-				mu.Unlock()
+		newsDelivered := map[graphsync.RequestID]int{}
+		checkRerequest := func(e *sim.Envelope) {
+			if e.From != scen.ReqID {
+				return
+			}
+			for _, q := range e.Msg.Requests() {
+				if q.Type() != graphsync.RequestTypeNew {
+					continue
+				}
+				newsDelivered[q.ID()]++
+				if newsDelivered[q.ID()] < 2 {
+					continue
+				}
+				for _, a := range rs.Impl.PeerState(scen.ReqID).IncomingState.TaskQueueState.Active {
+					if a == q.ID() {
+						if i, ok := getID(q.ID()); ok {
+							res.RerequestWhileActive[i] = true
+						}
+					}
+				}
 			}
 		}
+		w.OnDeliver = func(e *sim.Envelope) {
+			checkRerequest(e)
+			noteWire()
+			mu.Lock()
+			res.Events = append(res.Events, Event{K: "deliver", Seq: e.Seq, From: string(e.From)})
+			mu.Unlock()
+		}
+		results := make([]*sim.ReqResult, len(c.Reqs))
 		apiPending := map[string]bool{}
 		apiN := 0
 		api := func(name string, f func() error) {
@@ -388,8 +449,12 @@ func Run(t *testing.T, c Case) *Result {
 					continue
 				}
 				l := pl[op.N%len(pl)]
+				if pe := w.Net.Peek(l[0], l[1]); pe != nil {
+					checkRerequest(pe)
+				}
 				e := w.Net.Deliver(l[0], l[1])
 				desc = fmt.Sprintf("deliver(#%d %s)", e.Seq, map[bool]string{true: "Q->S", false: "S->Q"}[l[0] == scen.ReqID])
+				noteWire()
 				mu.Lock()
 				res.Events = append(res.Events, Event{K: "deliver", Seq: e.Seq, From: string(l[0])})
 				mu.Unlock()
@@ -504,4 +569,38 @@ func GenOps(t *rapid.T, n, maxOps int, kinds []string) []Op {
 		ops = append(ops, op)
 	}
 	return ops
+}
+
+// StaleAfterRerequest reports whether a response message the responder sent for
+// request i before the requestor re-sent that request (after a requestor-side
+// pause) reached the requestor after the re-request had gone out: the requestor
+// cannot tell such a message from the answer to its new request.
+func (r *Result) StaleAfterRerequest(i int) bool {
+	if !r.Reqs[i].HasID {
+		return false
+	}
+	id := r.Reqs[i].ID
+	var news []*sim.Envelope
+	for _, e := range r.Sent {
+		for _, q := range e.Msg.Requests() {
+			if q.ID() == id && q.Type() == graphsync.RequestTypeNew {
+				news = append(news, e)
+			}
+		}
+	}
+	for _, re := range news[min(1, len(news)):] {
+		for _, e := range r.Sent {
+			// e belongs to the earlier run if the responder sent it before it received the re-request
+			earlier := re.DeliveredAtSeq < 0 || e.Seq < re.DeliveredAtSeq
+			if e.From != scen.RespID || !earlier || e.DeliveredAtSeq <= re.Seq {
+				continue
+			}
+			for _, rsp := range e.Msg.Responses() {
+				if rsp.RequestID() == id {
+					return true
+				}
+			}
+		}
+	}
+	return false
 }
